@@ -35,6 +35,48 @@ pub struct HistSpec {
     pub pre_phase: Option<fn(&mut Evidence, Tier, u64)>,
     /// optional replay handler for pre-phase cases (Some(exit code) if it handled the file)
     pub pre_replay: Option<fn(&Value) -> Option<i32>>,
+    pub nconns: usize,
+    pub timed: bool,
+    pub lenient_scripts: bool,
+    pub dump_dbs: Vec<usize>,
+    pub dump_after_error: bool,
+    pub final_dump: bool,
+    pub workers: Option<usize>,
+    pub level: &'static str,
+}
+
+fn no_cmd() -> BoxedStrategy<Cmd> {
+    Just(Vec::new()).boxed()
+}
+
+impl Default for HistSpec {
+    fn default() -> HistSpec {
+        HistSpec {
+            id: "",
+            rule: "",
+            cmd: no_cmd,
+            history: None,
+            max_len: 40,
+            quick_cases: 1000,
+            thorough_cases: 10000,
+            nontrivial: |_| true,
+            probes: vec![],
+            excluder: |_, _, _, _| None,
+            fixed_cases: Vec::new,
+            label_floors: vec![],
+            assumptions: vec![],
+            pre_phase: None,
+            pre_replay: None,
+            nconns: 1,
+            timed: false,
+            lenient_scripts: false,
+            dump_dbs: vec![0],
+            dump_after_error: true,
+            final_dump: true,
+            workers: None,
+            level: "exploration",
+        }
+    }
 }
 
 pub fn history_strategy(cmd: BoxedStrategy<Cmd>, max_len: usize) -> BoxedStrategy<Vec<Step>> {
@@ -66,7 +108,7 @@ pub fn activate(ev: &mut Evidence, id: &str, probes: &[(&'static str, Probe)], w
 }
 
 pub fn run(spec: &HistSpec, tier: Tier, seed: u64, replay: Option<Value>) -> i32 {
-    let ev = Mutex::new(Evidence::new(spec.id, tier, seed, "exploration", spec.rule));
+    let ev = Mutex::new(Evidence::new(spec.id, tier, seed, spec.level, spec.rule));
     {
         let mut e = ev.lock().unwrap();
         for a in &spec.assumptions {
@@ -86,14 +128,18 @@ pub fn run(spec: &HistSpec, tier: Tier, seed: u64, replay: Option<Value>) -> i32
     let nontrivial = spec.nontrivial;
     let exec = move |wk: &mut Worker, steps: &Vec<Step>| -> CaseResult {
         let o = RunOpts {
-            nconns: 1,
-            timed: false,
-            dump_dbs: vec![0],
-            dump_after_error: true,
+            nconns: spec.nconns,
+            timed: spec.timed,
+            dump_dbs: spec.dump_dbs.clone(),
+            dump_after_error: spec.dump_after_error,
             active: active_ref,
             excluder: &excluder,
+            excluder_fn: excluder,
             nontrivial: &nontrivial,
             reply_timeout: Duration::from_secs(5),
+            lenient_scripts: spec.lenient_scripts,
+            final_dump: spec.final_dump,
+            fresh_server_if_blocking: true,
         };
         runner::run_script(wk, steps, &o)
     };
@@ -144,7 +190,7 @@ pub fn run(spec: &HistSpec, tier: Tier, seed: u64, replay: Option<Value>) -> i32
     }
     drop(wk0);
 
-    let cfg = LoopCfg { cases: tier.pick(spec.quick_cases, spec.thorough_cases), workers: crate::workers(), max_shrink_execs: 400, max_violations: std::env::var("FVH_MAX_VIOL").ok().and_then(|s| s.parse().ok()).unwrap_or(12) };
+    let cfg = LoopCfg { cases: tier.pick(spec.quick_cases, spec.thorough_cases), workers: spec.workers.unwrap_or_else(crate::workers), max_shrink_execs: 400, max_violations: std::env::var("FVH_MAX_VIOL").ok().and_then(|s| s.parse().ok()).unwrap_or(12) };
     let cmd = spec.cmd;
     let max_len = tier.pick(spec.max_len, spec.max_len * 3);
     crate::driver::run_cases(
